@@ -63,6 +63,17 @@ CLAIMED = {
               "kernels; each case is executed and every caller cell (argument base storages, every tensor defining the operator) is compared "
               "by _version and bits; the operator must still densify to the same matrix."),
         design="5/C13", note="TLC 1.8; torch's _version counter; harness/checks/c13.py argument builders"),
+    "C14": dict(
+        engine="E1-denote-replay",
+        technique="TLA+ attribute-record model (leaf kinds, non-tensor structure, dtype) of copy / conversion / rebuild actions; TLC-enumerated cases replayed with structural, dtype, storage and value checks",
+        text=("spec/MC_C14.tla: an operator value is (term, dtype of its floating data); the attribute record lists the kind of every tensor leaf "
+              "(floating / integer / boolean) and the non-tensor arguments along the tree. clone, detach, to, type, double, float, cpu, "
+              "evaluate_kernel, the representation-tree round trip and requires_grad_ are the identity on structure and denotation and map the "
+              "dtype of exactly the floating leaves. TLC enumerates 34 classes x batch x (source, target, torch default) dtype x 11 actions and logs "
+              "the expected record plus the exact dense matrix; the replay checks class tree and non-tensor arguments, operator / leaf dtypes, "
+              "that integer and boolean leaves keep their dtype, storage disjointness of clones, requires_grad reach, the dense value, and "
+              "(action 'outputs') that every returned tensor has the operator's dtype when torch's default dtype differs."),
+        design="5/C14"),
     "C15": dict(
         engine="E1-denote-replay",
         technique="TLA+ dispatch table (torch function -> abstract action) checked against the live registration tables by TLC; TLC-enumerated calls replayed in both operand orders",
